@@ -14,7 +14,7 @@ A program:
    ("restart": true is the old spelling of "more": [{"pre": [], "exit_us": 5000}])
 ops (times in microseconds):
   ["alarm", cbid, us] ["rm_alarm", cbid] ["watch", cbid, fd] ["rm_watch", cbid] ["idle", cbid] ["rm_idle", cbid]
-  ["write", fd, n] ["busy", us] ["raise", "exit"|"boom"]
+  ["write", fd, n] ["busy", us] ["raise", "exit"|"boom"|<any kind of loop_probe.EXC_KINDS>]
 Watch callbacks read one byte of their descriptor on entry unless listed in "nodrain".
 """
 
@@ -25,7 +25,7 @@ import os
 import select
 import time
 
-from vmon.monitors.loop_probe import Boom, FakeFile, FakePoller, FakeSelectorsModule, FakeTimeModule, PollerProxy, Probe, VirtualOS, WaitRecorder
+from vmon.monitors.loop_probe import EXC_KINDS, Boom, make_exception, FakeFile, FakePoller, FakeSelectorsModule, FakeTimeModule, PollerProxy, Probe, VirtualOS, WaitRecorder
 
 LOOPS = ("select", "zmq", "asyncio", "tornado", "twisted", "trio")
 VIRTUAL_LOOPS = ("select", "zmq")
@@ -343,7 +343,7 @@ def execute(prog) -> list[dict]:
                 elif k == "raise":
                     if op[1] == "exit":
                         raise ExitMainLoop
-                    raise Boom(f"{cbid}#{n}")
+                    raise make_exception(op[1], f"{cbid}#{n}")
                 else:
                     raise AssertionError(op)
 
@@ -459,6 +459,7 @@ def gen_random(rng, loop, mode, zmq_fractional=False):
 
     nodrain = []
     raises_left = rng.choice([0, 1, 1, 1, 2])
+    raises_total = raises_left
     depth = {a: 0 for a in alarms}
 
     def gen_ops(cbid, kind, d):
@@ -499,7 +500,14 @@ def gen_random(rng, loop, mode, zmq_fractional=False):
                 ops.append(["busy", rng.choice([500, 1500, 3000])])
             elif raises_left > 0:
                 raises_left -= 1
-                ops.append(["raise", rng.choice(["exit", "boom", "boom"])])
+                k = "boom"
+                if raises_total == 1:
+                    # the special exception classes are raised only in programs with a single raising callback, so that
+                    # a loop swallowing one of them cannot show up under the signatures of the two-raisers rules
+                    k = safe_kind(loop, kind, rng.choice(["exit", "boom", "boom", rng.choice(EXC_KINDS)]))
+                else:
+                    k = rng.choice(["exit", "boom", "boom"])
+                ops.append(["raise", k])
                 break
         return ops
 
@@ -576,6 +584,18 @@ def gen_random(rng, loop, mode, zmq_fractional=False):
 
 
 # ------------------------------------------------------------------------------ directed programs
+
+
+def safe_kind(loop, cbkind, kind):
+    """exception kinds that are kept out of the judged domain (see ASSUMES): everything but Boom/exit from a trio idle
+    callback (trio swallows every exception raised inside its Instrument: one known finding, not one per class) and
+    StopIteration from a trio alarm/watch callback (those run inside coroutines, where PEP 479 turns it into RuntimeError)"""
+    if kind in ("exit", "boom"):
+        return kind
+    if loop == "trio" and (cbkind == "idle" or kind == "stopiteration"):
+        return "boom"
+    return kind
+
 
 
 def directed(loop, mode):
@@ -665,6 +685,22 @@ def directed(loop, mode):
                     cbs["b0"] = [[["raise", "boom"]]]  # the second run ends by an exception, too
                 P(2, pre, cbs)
                 out[-1]["more"] = more
+    # every exception class of EXC_KINDS raised from an alarm, a watch and an idle callback; then a second run()
+    n_plain = len(out)
+    for kind in EXC_KINDS:
+        if kind == "boom":
+            continue
+        for cbk in ("alarm", "watch", "idle"):
+            k = safe_kind(loop, cbk, kind)
+            if k == "boom":
+                continue
+            cbs = {"alarm": {"a0": [[["raise", k]]]}, "watch": {"w0": [[["raise", k]]]}, "idle": {"i0": [[], [["raise", k]]]}}[cbk]
+            pre = [["idle", "i0"], ["alarm", "a0", 1000], ["alarm", "a1", 3000], ["watch", "w0", 0]] + ([["write", 0, 1]] if cbk == "watch" else [])
+            P(1, pre, cbs)
+            if loop in RESTARTABLE:
+                out[-1]["more"] = [{"pre": [["alarm", "b0", 0]], "exit_us": 5000}]
+    kinds_progs = out[n_plain:]
+    del out[n_plain:]
     # the same programs with descriptor key 0 being file descriptor 0 (stdin, the descriptor urwid's raw display
     # watches; also the only falsy descriptor / handle value)
     import copy
@@ -674,7 +710,7 @@ def directed(loop, mode):
             p0 = copy.deepcopy(prog)
             p0["fd0"] = True
             out.append(p0)
-    return out
+    return out + kinds_progs
 
 
 # ------------------------------------------------------------------------------ enumerated schedules (virtual)
